@@ -140,7 +140,7 @@ func (sc *C02Scenario) Execute(t *testing.T) *core.Outcome {
 
 	body := func() {
 		w = NewWorld()
-		w.OnInvoke = func(ti, fn int, ctx context.Context, id int) {
+		w.OnInvoke = func(ti, fn, uid int, ctx context.Context, id int) {
 			k := regKey(ti, fn)
 			st := w.Rec.Add("enter", k, id, "")
 			if probing {
